@@ -1,6 +1,7 @@
 package props
 
 import (
+	"go/ast"
 	"fmt"
 	"strings"
 
@@ -419,15 +420,23 @@ func blockedAddresses(c *Ctx, must []string) {
 			switch x := in.(type) {
 			case *ssa.Call:
 				if bi, ok := x.Common().Value.(*ssa.Builtin); ok && bi.Name() == "delete" {
-					name := constModule(w.Expand(w.ExprOf(x.Common().Args[1]), 2))
+					ke := w.Expand(w.ExprOf(x.Common().Args[1]), 2)
+					name := constModule(ke)
 					if name == "" {
+						// the key may range over a constant table of module names (a package-level []string never written after init)
+						if names := tableModules(c, ke); len(names) > 0 {
+							for _, nm := range names {
+								deleted[nm] = true
+							}
+							continue
+						}
 						name = "?"
 					}
 					deleted[name] = true
 				}
 			case *ssa.Range:
 				e := w.Expand(w.ExprOf(x.X), 2)
-				if e.Any(func(z *ir.Expr) bool { return z.Op == "global" && z.Name == "app.maccPerms" }) || strings.Contains(w.ExprOf(x.X).String(), "GetMaccPerms") {
+				if e.Any(func(z *ir.Expr) bool { return z.Op == "global" && z.Name == "app."+maccPermsVar(c) }) || copiesPermsMap(c, x.X) {
 					rangesAll = true
 					if refs := x.Referrers(); refs != nil {
 						for _, y := range *refs {
@@ -560,4 +569,104 @@ func methodNameOf(call ssa.CallInstruction) string {
 		return sc.Name()
 	}
 	return ""
+}
+
+// tableModules: e is NewModuleAddress(<element of a package-level string table>): returns the table's constant
+// elements, provided the table is assigned only by its initialiser.
+func tableModules(c *Ctx, e *ir.Expr) []string {
+	w := c.W
+	var g *ir.Expr
+	e.Walk(func(z *ir.Expr) bool {
+		if z.Op == "call" && strings.HasSuffix(z.Name, "types.NewModuleAddress") && len(z.Args) == 1 {
+			a := z.Args[0]
+			if a.Op == "elem" && len(a.Args) == 2 && a.Args[0].Op == "global" {
+				g = a.Args[0]
+			}
+		}
+		return true
+	})
+	if g == nil {
+		return nil
+	}
+	gv, ok := g.V.(*ssa.Global)
+	if !ok || gv.Pkg == nil {
+		return nil
+	}
+	// no write outside the package initialiser
+	for _, ef := range w.AllEffects(func(e ir.Effect) bool { return e.Kind == "GlobalWrite" && e.Method == g.Name }) {
+		if !strings.HasSuffix(fn(ef.Fn), ".init") && !strings.Contains(fn(ef.Fn), ".init#") {
+			return nil
+		}
+	}
+	for _, pk := range w.P.Pkgs {
+		if pk.Types != gv.Pkg.Pkg {
+			continue
+		}
+		init := w.VarInit(pk, gv.Name())
+		cl, ok := init.(*ast.CompositeLit)
+		if !ok {
+			return nil
+		}
+		var out []string
+		for _, el := range cl.Elts {
+			s, ok := ir.ConstString(pk, el)
+			if !ok {
+				return nil
+			}
+			out = append(out, s)
+		}
+		return out
+	}
+	return nil
+}
+
+// copiesPermsMap: v is the result of an in-scope function that returns a fresh map filled with every key (and value)
+// of the module-account permissions map (GetMaccPerms hands out a copy).
+func copiesPermsMap(c *Ctx, v ssa.Value) bool {
+	call, ok := v.(*ssa.Call)
+	if !ok {
+		return false
+	}
+	for _, g := range c.W.CalleesOf(call) {
+		var rng *ssa.Range
+		var upd *ssa.MapUpdate
+		for _, b := range g.Blocks {
+			for _, in := range b.Instrs {
+				switch x := in.(type) {
+				case *ssa.Range:
+					if u, ok := x.X.(*ssa.UnOp); ok {
+						if gl, ok := u.X.(*ssa.Global); ok && gl.Name() == maccPermsVar(c) {
+							rng = x
+						}
+					}
+				case *ssa.MapUpdate:
+					upd = x
+				}
+			}
+		}
+		if rng == nil || upd == nil {
+			continue
+		}
+		// the inserted key is the key of the current iteration, into a map made here, and every iteration inserts
+		mm, fresh := upd.Map.(*ssa.MakeMap)
+		ex, isEx := upd.Key.(*ssa.Extract)
+		if !fresh || !isEx || ex.Index != 1 {
+			continue
+		}
+		nx, isNext := ex.Tuple.(*ssa.Next)
+		if !isNext || nx.Iter != ssa.Value(rng) || !nx.Block().Dominates(upd.Block()) {
+			continue
+		}
+		returnsIt := false
+		for _, rt := range ir.Returns(g) {
+			if len(rt.Results) == 1 && rt.Results[0] == ssa.Value(mm) {
+				returnsIt = true
+			}
+		}
+		// no way round the insert inside the loop body: the body block is the only successor path back to the header
+		if returnsIt && len(ir.AfterReachesBackEdgeWithoutCut(g, nx, func(in ssa.Instruction) bool { return in == ssa.Instruction(upd) }, nil)) == 0 {
+			return true
+		}
+	}
+	return false
 }
